@@ -99,6 +99,15 @@ def pubattrs(m):
 
 def msgstr(m):
     try:
+        return _msgstr(m)
+    except Hang:
+        raise
+    except Exception as e:  # noqa  (a message object corrupted by a successful assignment)
+        return "unprintable:" + errstr(e)
+
+
+def _msgstr(m):
+    try:
         ser = hx(m.serialize())
     except Exception as e:  # noqa
         ser = errstr(e)
